@@ -62,8 +62,10 @@ static CmpStyle cstyle_of(const std::string& s)
 
 // ---------------------------------------------------------------- comparisons
 template<class T, CmpStyle cs>
-static std::string cmp6(T eps, T a, T b)
+static std::string cmp6(T eps, T a, T b0, bool alias)
 {
+  // alias: both operands are the SAME object (the functions take references)
+  const T& b = alias ? a : b0;
   std::string r;
   r += FloatCmp::eq<T, cs>(a, b, eps) ? '1' : '0';
   r += FloatCmp::ne<T, cs>(a, b, eps) ? '1' : '0';
@@ -79,17 +81,26 @@ static std::string cmp6(T eps, T a, T b)
   r += ops.lt(a, b) ? '1' : '0';
   r += ops.ge(a, b) ? '1' : '0';
   r += ops.le(a, b) ? '1' : '0';
-  // default-constructed object (DefaultEpsilon), epsilon set through the setter, read back through the getter; non-default rstyle_
-  FloatCmpOps<T, cs, FloatCmp::upward> ops2;
-  ops2.epsilon(eps);
+  // object history and special members: default-constructed object (DefaultEpsilon), a first epsilon, used once, then the final
+  // epsilon; copy construction, copy assignment, self-assignment, move construction; every copy must carry the epsilon and
+  // leave its source unchanged; non-default rstyle_
+  typedef FloatCmpOps<T, cs, FloatCmp::upward> Ops;
+  Ops ops0;
+  ops0.epsilon(eps + eps + T(1));
+  (void) ops0.eq(a, b);
+  ops0.epsilon(eps);
+  Ops ops2(ops0);
+  Ops ops3; ops3 = ops2; ops3 = *&ops3;
+  Ops ops4(std::move(ops3));
   r += ' ';
-  if (to_bits<T>(ops2.epsilon()) != to_bits<T>(eps)) return r + "GETTER";
-  static_assert(FloatCmpOps<T, cs, FloatCmp::upward>::cstyle == cs && FloatCmpOps<T, cs, FloatCmp::upward>::rstyle == FloatCmp::upward, "recorded styles");
-  r += ops2.eq(a, b) ? '1' : '0';
-  r += ops2.ne(a, b) ? '1' : '0';
-  r += ops2.gt(a, b) ? '1' : '0';
-  r += ops2.lt(a, b) ? '1' : '0';
-  r += ops2.ge(a, b) ? '1' : '0';
+  if (to_bits<T>(ops0.epsilon()) != to_bits<T>(eps)) return r + "GETTER";
+  if (to_bits<T>(ops2.epsilon()) != to_bits<T>(eps) || to_bits<T>(ops4.epsilon()) != to_bits<T>(eps)) return r + "COPY";
+  static_assert(Ops::cstyle == cs && Ops::rstyle == FloatCmp::upward, "recorded styles");
+  r += ops4.eq(a, b) ? '1' : '0';
+  r += ops4.ne(a, b) ? '1' : '0';
+  r += ops4.gt(a, b) ? '1' : '0';
+  r += ops4.lt(a, b) ? '1' : '0';
+  r += ops4.ge(a, b) ? '1' : '0';
   r += ops2.le(a, b) ? '1' : '0';
   return r;
 }
@@ -98,10 +109,11 @@ template<class T>
 static std::string do_cmp(const std::vector<std::string>& t)
 {
   T eps = from_bits<T>(t[3]), a = from_bits<T>(t[4]), b = from_bits<T>(t[5]);
+  bool alias = t[4] == t[5];
   switch (cstyle_of(t[2])) {
-    case FloatCmp::relativeWeak:   return cmp6<T, FloatCmp::relativeWeak>(eps, a, b);
-    case FloatCmp::relativeStrong: return cmp6<T, FloatCmp::relativeStrong>(eps, a, b);
-    default:                       return cmp6<T, FloatCmp::absolute>(eps, a, b);
+    case FloatCmp::relativeWeak:   return cmp6<T, FloatCmp::relativeWeak>(eps, a, b, alias);
+    case FloatCmp::relativeStrong: return cmp6<T, FloatCmp::relativeStrong>(eps, a, b, alias);
+    default:                       return cmp6<T, FloatCmp::absolute>(eps, a, b, alias);
   }
 }
 
@@ -130,8 +142,9 @@ static std::string six_of(const V& a, const V& b, E eps)
 }
 
 template<class T, CmpStyle cs>
-static std::string vcmp(T eps, const std::vector<T>& a, const std::vector<T>& b)
+static std::string vcmp(T eps, const std::vector<T>& a, const std::vector<T>& b0, bool alias)
 {
+  const std::vector<T>& b = alias ? a : b0;       // alias: both operands are the same vector object
   static_assert(std::is_same<typename FloatCmp::EpsilonType<std::vector<T>>::Type, T>::value, "EpsilonType of std::vector");
   static_assert(std::is_same<typename FloatCmp::EpsilonType<FieldVector<T, 3>>::Type, T>::value, "EpsilonType of FieldVector");
   static_assert(std::is_same<typename FloatCmp::EpsilonType<T>::Type, T>::value, "EpsilonType of a scalar");
@@ -148,6 +161,18 @@ static std::string vcmp(T eps, const std::vector<T>& a, const std::vector<T>& b)
   FloatCmpOps<std::vector<T>, cs> ops(eps);
   r += ops.eq(a, b) ? '1' : '0'; r += ops.ne(a, b) ? '1' : '0'; r += ops.gt(a, b) ? '1' : '0';
   r += ops.lt(a, b) ? '1' : '0'; r += ops.ge(a, b) ? '1' : '0'; r += ops.le(a, b) ? '1' : '0';
+  // epsilon defaulted (DefaultEpsilon<std::vector<T>,cs>), compare style defaulted as well, FieldVector<T,2> with defaulted epsilon
+  r += ' ';
+  r += FloatCmp::eq<std::vector<T>, cs>(a, b) ? '1' : '0'; r += FloatCmp::ne<std::vector<T>, cs>(a, b) ? '1' : '0';
+  r += ' ';
+  r += FloatCmp::eq<std::vector<T>>(a, b) ? '1' : '0'; r += FloatCmp::ne<std::vector<T>>(a, b) ? '1' : '0';
+  r += ' ';
+  if (a.size() == b.size() && a.size() == 2) {
+    FieldVector<T, 2> x, y; x[0] = a[0]; x[1] = a[1]; y[0] = b[0]; y[1] = b[1];
+    const FieldVector<T, 2>& yy = alias ? x : y;
+    r += FloatCmp::eq<FieldVector<T, 2>, cs>(x, yy) ? '1' : '0'; r += FloatCmp::ne<FieldVector<T, 2>, cs>(x, yy) ? '1' : '0';
+  }
+  else r += "--";
   return r;
 }
 
@@ -160,10 +185,12 @@ static std::string do_vcmp(const std::vector<std::string>& t)
   for (int i = 0; i < n; ++i) a.push_back(from_bits<T>(t[5 + i]));
   int m = std::stoi(t[5 + n]);
   for (int i = 0; i < m; ++i) b.push_back(from_bits<T>(t[6 + n + i]));
+  bool alias = n == m;
+  for (int i = 0; alias && i < n; ++i) alias = t[5 + i] == t[6 + n + i];
   switch (cstyle_of(t[2])) {
-    case FloatCmp::relativeWeak:   return vcmp<T, FloatCmp::relativeWeak>(eps, a, b);
-    case FloatCmp::relativeStrong: return vcmp<T, FloatCmp::relativeStrong>(eps, a, b);
-    default:                       return vcmp<T, FloatCmp::absolute>(eps, a, b);
+    case FloatCmp::relativeWeak:   return vcmp<T, FloatCmp::relativeWeak>(eps, a, b, alias);
+    case FloatCmp::relativeStrong: return vcmp<T, FloatCmp::relativeStrong>(eps, a, b, alias);
+    default:                       return vcmp<T, FloatCmp::absolute>(eps, a, b, alias);
   }
 }
 
@@ -208,6 +235,10 @@ static std::string do_rt(const std::vector<std::string>& t)
   bool isround = t[0] == "round";
   T eps = from_bits<T>(t[5]), v = from_bits<T>(t[6]);
   const std::string& i = t[2];
+  if constexpr (std::is_same<T, double>::value) {          // narrow integer types (promotion to int inside round_t / trunc_t)
+    if (i == "i16") return rt_c<short, T>(isround, t[3], t[4], eps, v);
+    if (i == "u16") return rt_c<unsigned short, T>(isround, t[3], t[4], eps, v);
+  }
   if (i == "i32") return rt_c<std::int32_t, T>(isround, t[3], t[4], eps, v);
   if (i == "u32") return rt_c<std::uint32_t, T>(isround, t[3], t[4], eps, v);
   if (i == "i64") return rt_c<long, T>(isround, t[3], t[4], eps, v);
@@ -227,7 +258,15 @@ static std::string do_int(const std::vector<std::string>& t)
   const std::string& op = t[0];
   if (op == "ipow")  return istr<I>(Dune::power(parse_int<I>(t[2]), (int) std::stol(t[3])));
   if (op == "fact")  return istr<I>(Dune::factorial(parse_int<I>(t[2])));
-  if (op == "binom") return istr<I>(Dune::binomial(parse_int<I>(t[2]), parse_int<I>(t[3])));
+  if (op == "binom") {
+    // binomial<T> cannot be instantiated for types narrower than int: `binomial(n, n-k)` deduces T from `n-k`, which is an int
+    if constexpr (sizeof(I) < sizeof(int)) return "NOT-INSTANTIABLE";
+    else {
+    const I n = parse_int<I>(t[2]), k0 = parse_int<I>(t[3]);
+    const I& k = (t[2] == t[3]) ? n : k0;                 // n and k the same object when equal (the function takes references)
+    return istr<I>(Dune::binomial(n, k));
+    }
+  }
   return std::to_string(Dune::sign(parse_int<I>(t[2])));
 }
 
@@ -272,8 +311,10 @@ static std::string do_cls(const std::vector<std::string>& t)
 template<class T>
 static std::string do_unord(const std::vector<std::string>& t)
 {
-  T a = from_bits<T>(t[2]), b = from_bits<T>(t[3]);
-  FieldVector<T, 1> x(a), y(b);
+  T a = from_bits<T>(t[2]), b0 = from_bits<T>(t[3]);
+  const T& b = (t[2] == t[3]) ? a : b0;                   // same object when equal
+  FieldVector<T, 1> x(a), y0(b);
+  const FieldVector<T, 1>& y = (t[2] == t[3]) ? x : y0;
   std::string r;
   r += Dune::isUnordered(a, b) ? '1' : '0';
   r += ' ';
@@ -457,6 +498,10 @@ int main(int argc, char** argv)
       else if (t[0] == "isign" && t[1] == "u8") out = std::to_string(Dune::sign((unsigned char) std::stol(t[2])));
       else if (t[0] == "isign" && t[1] == "i16") out = std::to_string(Dune::sign((short) std::stol(t[2])));
       else if (t[0] == "isign" && t[1] == "u16") out = std::to_string(Dune::sign((unsigned short) std::stol(t[2])));
+      else if (t[1] == "i8") out = do_int<signed char>(t);
+      else if (t[1] == "u8") out = do_int<unsigned char>(t);
+      else if (t[1] == "i16") out = do_int<short>(t);
+      else if (t[1] == "u16") out = do_int<unsigned short>(t);
       else if (t[1] == "i32") out = do_int<std::int32_t>(t);
       else if (t[1] == "u32") out = do_int<std::uint32_t>(t);
       else if (t[1] == "i64") out = do_int<long>(t);
